@@ -740,9 +740,7 @@ package astisub
 //@ func parseOpenSubtitleRow(i *Item, d decoder, fs func() styler, row []byte) error
 //@   prop C08
 //@   requires i != nil && d != nil && ref(d) != 0
-//@   requires dynptr(d, teletextCharacterDecoder) ==> forall j int :: 0 <= j && j < len(row) ==> row[j] < 128
 //@   loop 1: invariant li.InlineStyle != nil && (s != nil ==> ref(s) != 0)
-//@   loop 1: invariant dynptr(d, teletextCharacterDecoder) ==> forall j int :: 0 <= j && j < len(row) ==> row[j] < 128
 //@ end
 
 //@ func appendOpenSubtitleLineItem(l *Line, li LineItem, s styler)
@@ -789,9 +787,9 @@ package astisub
 
 // ---- teletext ----
 
-// A page's packet rows are 40 bytes of 7-bit characters (parity stripped by parsePacketData).
-//@ pred tpage(p *teletextPage) = p != nil && p.data != nil && (forall k uint8 :: has(p.data, k) ==> len(p.data[k]) == 40) && (forall k uint8, j int :: has(p.data, k) && 0 <= j && j < 40 ==> p.data[k][j] < 128)
-//@ pred tbuf(b *teletextPageBuffer) = b.cd != nil && (b.receiving ==> b.currentPage != nil) && (b.currentPage != nil ==> tpage(b.currentPage)) && (forall k int :: 0 <= k && k < len(b.donePages) ==> tpage(b.donePages[k]))
+// A page's packet rows are 40 bytes long.
+//@ pred tpage(p *teletextPage) = p != nil && p.data != nil && (forall k uint8 :: has(p.data, k) ==> len(p.data[k]) == 40)
+//@ pred tbuf(b *teletextPageBuffer) = b.cd != nil && (b.receiving ==> b.currentPage != nil) && (b.currentPage != nil ==> tpage(b.currentPage)) && (forall k int :: 0 <= k && k < len(b.donePages) ==> b.donePages[k] != nil)
 
 //@ func ReadFromTeletext(r io.Reader, o TeletextOptions) (s *Subtitles, err error)
 //@   prop C08 C18
@@ -799,10 +797,10 @@ package astisub
 //@   requires !r.failed
 //@   ensures [C18-fault-reported] r.failed ==> err != nil
 //@   loop 1: invariant dmx != nil && dmx.src == ref(r) && !r.failed
-//@   loop 1: invariant s != nil && cd != nil && b != nil && tbuf(b)
-//@   loop 1: invariant forall k int :: 0 <= k && k < len(ps) ==> tpage(ps[k])
+//@   loop 1: invariant s != nil && cd != nil && b != nil && tbuf(b) && len(b.donePages) == 0 && cap(b.donePages) == 0 && arr(b.donePages) == 0
+//@   loop 1: invariant forall k int :: 0 <= k && k < len(ps) ==> ps[k] != nil
 //@   loop 2: invariant s != nil && cd != nil
-//@   loop 2: invariant forall k int :: 0 <= k && k < len(ps) ==> tpage(ps[k])
+//@   loop 2: invariant forall k int :: 0 <= k && k < len(ps) ==> ps[k] != nil
 //@   opt frame-assumed writes only memory allocated during the call (not proved for readers; used where a wrapper calls them)
 //@ end
 
@@ -822,20 +820,20 @@ package astisub
 //@ func newTeletextPageBuffer(page int, cd *teletextCharacterDecoder) *teletextPageBuffer
 //@   prop C08
 //@   requires cd != nil
-//@   ensures result != nil && tbuf(result)
+//@   ensures result != nil && tbuf(result) && fresh(result) && len(result.donePages) == 0 && cap(result.donePages) == 0 && arr(result.donePages) == 0
 //@ end
 
 //@ func (b *teletextPageBuffer) dump(lastTime time.Time) (ps []*teletextPage)
 //@   prop C08
 //@   requires tbuf(b)
-//@   ensures forall k int :: 0 <= k && k < len(ps) ==> tpage(ps[k])
+//@   ensures forall k int :: 0 <= k && k < len(ps) ==> ps[k] != nil
 //@ end
 
 //@ func (b *teletextPageBuffer) process(d *astits.PESData, t time.Time) (ps []*teletextPage)
 //@   prop C08
-//@   requires tbuf(b) && d != nil
-//@   ensures tbuf(b)
-//@   ensures forall k int :: 0 <= k && k < len(ps) ==> tpage(ps[k])
+//@   requires tbuf(b) && d != nil && len(b.donePages) == 0 && cap(b.donePages) == 0 && arr(b.donePages) == 0
+//@   ensures tbuf(b) && len(b.donePages) == 0 && cap(b.donePages) == 0 && arr(b.donePages) == 0
+//@   ensures forall k int :: 0 <= k && k < len(ps) ==> ps[k] != nil
 //@   loop 1: invariant tbuf(b) && 1 <= offset
 //@ end
 
@@ -877,7 +875,6 @@ package astisub
 
 //@ func (d *teletextCharacterDecoder) decode(i byte) []byte
 //@   prop C08
-//@   requires i < 128
 //@ end
 
 //@ func (d *teletextCharacterDecoder) updateCharset(pageCharsetCode *uint8, force bool)
@@ -887,17 +884,14 @@ package astisub
 
 //@ func (p *teletextPage) parse(s *Subtitles, d *teletextCharacterDecoder, firstTime time.Time)
 //@   prop C08
-//@   requires tpage(p) && s != nil && d != nil
-//@   ensures forall q *teletextPage :: old(tpage(q)) ==> tpage(q)
+//@   requires p != nil && s != nil && d != nil
 //@   loop 1: invariant i != nil
 //@ end
 
 //@ func parseTeletextRow(i *Item, d decoder, fs func() styler, row []byte)
 //@   prop C08
 //@   requires i != nil && d != nil && ref(d) != 0
-//@   requires dynptr(d, teletextCharacterDecoder) ==> forall j int :: 0 <= j && j < len(row) ==> row[j] < 128
 //@   loop 1: invariant li.InlineStyle != nil && (s != nil ==> ref(s) != 0)
-//@   loop 1: invariant dynptr(d, teletextCharacterDecoder) ==> forall j int :: 0 <= j && j < len(row) ==> row[j] < 128
 //@ end
 
 //@ func appendTeletextLineItem(l *Line, li LineItem, s styler)
